@@ -381,7 +381,13 @@ class QvmCpu:
         instr, operands, size = self.get_current_instruction()
         if instr.op == 'call':
             prev_pc = self.pc
-            bp = lambda cpu: (cpu.pc == prev_pc + size)
+            frame = self.cur_frame
+            # the call has returned when control is back at the
+            # instruction after it *in the frame the call was made
+            # from*; a recursive callee's own calls return to the same
+            # address, but in a deeper frame.
+            bp = lambda cpu: (cpu.pc == prev_pc + size and
+                              cpu.cur_frame is frame)
             self.add_breakpoint(bp)
             try:
                 ret = self.run()
